@@ -13,4 +13,5 @@ for l in open('/verif/properties.jsonl'):
     if d['id']==sys.argv[1]:
         print(json.dumps(d,indent=1))
 PY
+sed "s/__ID__/$ID/g" /verif/tools/seed_prompt.txt > "$WT/TASK.md"
 echo "$WT"
